@@ -14,9 +14,11 @@ import (
 	"math/rand"
 	"os"
 	"path/filepath"
+	"runtime"
 	"sort"
 	"strconv"
 	"strings"
+	"sync"
 	"time"
 
 	"github.com/lindb/common/pkg/ltoml"
@@ -75,6 +77,9 @@ type thr struct {
 	out        int64
 	outContent map[uint32][]uint32
 	mergeSeen  bool
+	gid        int64           // goroutine id while alive
+	free       bool            // free-running (a `par` op): yield points do not park it
+	blocked    bool            // waiting for the version-set mutex
 	relVer     version.Version // version whose Dec the thread is parked after
 	zero       bool            // that Dec returned 0
 	delPath    string          // table file the thread is about to remove
@@ -83,11 +88,43 @@ type thr struct {
 	err        error
 }
 
+type evt struct {
+	t  *thr
+	id string
+}
+
+// sched: threads are identified by their goroutine id (a thread that blocks on the version-set
+// mutex keeps running concurrently with the scheduler; when the holder releases the mutex it runs
+// on by itself to its next park point).
 type sched struct {
-	cur *thr
+	mu     sync.Mutex
+	byG    map[int64]*thr
+	events chan evt
+	locked func() bool // is the version-set mutex held?
 }
 
 var theSched *sched
+
+func newSched() *sched { return &sched{byG: map[int64]*thr{}, events: make(chan evt, 64)} }
+
+func goid() int64 {
+	var b [64]byte
+	n := runtime.Stack(b[:], false)
+	f := strings.Fields(string(b[:n]))
+	if len(f) < 2 {
+		return -1
+	}
+	id, _ := strconv.ParseInt(f[1], 10, 64)
+	return id
+}
+
+// self: the thread whose goroutine is calling (nil: not one of ours, e.g. the scheduler itself).
+func (s *sched) self() *thr {
+	g := goid()
+	s.mu.Lock()
+	defer s.mu.Unlock()
+	return s.byG[g]
+}
 
 // parkIDs: the yield points / seams this area schedules at. Other properties' yield points in
 // the same code paths are ignored.
@@ -107,44 +144,117 @@ func hook(id string) {
 }
 
 func (s *sched) park(id string) {
-	t := s.cur
-	if t == nil {
+	t := s.self()
+	if t == nil || t.free {
 		return
 	}
-	t.parked <- id
+	s.events <- evt{t, id}
 	<-t.resume
 }
 
-func (s *sched) wait(t *thr) string {
-	select {
-	case id := <-t.parked:
-		s.cur = nil
-		return id
-	case <-time.After(20 * time.Second):
-		s.cur = nil
-		return "timeout"
-	}
-}
-
-func (s *sched) start(t *thr, f func()) string {
-	s.cur = t
+func (s *sched) start(t *thr, f func()) {
 	t.alive = true
 	go func() {
+		g := goid()
+		s.mu.Lock()
+		s.byG[g] = t
+		t.gid = g
+		s.mu.Unlock()
 		defer func() {
 			if r := recover(); r != nil {
 				t.panicV = r
 			}
-			t.parked <- "done"
+			s.mu.Lock()
+			delete(s.byG, g)
+			s.mu.Unlock()
+			s.events <- evt{t, "done"}
 		}()
 		f()
 	}()
-	return s.wait(t)
 }
 
-func (s *sched) resumeT(t *thr) string {
-	s.cur = t
-	t.resume <- struct{}{}
-	return s.wait(t)
+func (s *sched) resumeT(t *thr) { t.resume <- struct{}{} }
+
+// mutexWaiters: goroutine ids currently waiting in a sync mutex/semaphore acquire.
+func mutexWaiters() map[int64]bool {
+	buf := make([]byte, 1<<20)
+	n := runtime.Stack(buf, true)
+	rs := map[int64]bool{}
+	for _, line := range strings.Split(string(buf[:n]), "\n") {
+		if !strings.HasPrefix(line, "goroutine ") {
+			continue
+		}
+		f := strings.SplitN(line, " ", 3)
+		if len(f) < 3 {
+			continue
+		}
+		id, err := strconv.ParseInt(f[1], 10, 64)
+		if err != nil {
+			continue
+		}
+		st := f[2]
+		if strings.Contains(st, "sync.Mutex.Lock") || strings.Contains(st, "sync.RWMutex.Lock") ||
+			strings.Contains(st, "sync.RWMutex.RLock") || strings.Contains(st, "semacquire") {
+			rs[id] = true
+		}
+	}
+	return rs
+}
+
+// settle waits until every thread in busy has reached a park point (or finished) or is blocked on
+// the version-set mutex that a parked thread holds. Returns the park id per settled thread ("" =
+// blocked) or ok=false on timeout.
+func (s *sched) settle(busy []*thr) (map[*thr]string, bool) {
+	res := map[*thr]string{}
+	pending := map[*thr]bool{}
+	for _, t := range busy {
+		pending[t] = true
+	}
+	deadline := time.Now().Add(20 * time.Second)
+	for len(pending) > 0 {
+		select {
+		case e := <-s.events:
+			res[e.t] = e.id
+			delete(pending, e.t)
+		case <-time.After(300 * time.Microsecond):
+			if time.Now().After(deadline) {
+				return res, false
+			}
+			// all remaining threads waiting for a mutex that is (still) held ⇒ the holder is parked
+			w := mutexWaiters()
+			all := true
+			for t := range pending {
+				if t.gid == 0 || !w[t.gid] {
+					all = false
+				}
+			}
+			if all && s.locked != nil && s.locked() {
+				// re-check once: a waiter that was just handed the mutex shows up as an event shortly
+				time.Sleep(200 * time.Microsecond)
+				select {
+				case e := <-s.events:
+					res[e.t] = e.id
+					delete(pending, e.t)
+					continue
+				default:
+				}
+				w = mutexWaiters()
+				still := true
+				for t := range pending {
+					if !w[t.gid] {
+						still = false
+					}
+				}
+				if still && s.locked() {
+					for t := range pending {
+						res[t] = ""
+					}
+					return res, true
+				}
+			}
+		}
+	}
+	return res, true
 }
 
 // ---------------------------------------------------------------- merger
@@ -174,8 +284,8 @@ func (m *merger) Merge(key uint32, values [][]byte) error {
 		toks = append(toks, decToks(v)...)
 	}
 	sort.Slice(toks, func(i, j int) bool { return toks[i] < toks[j] })
-	if s := theSched; s != nil && s.cur != nil {
-		t := s.cur
+	if t := selfThr(); t != nil {
+		s := theSched
 		if !t.mergeSeen {
 			t.mergeSeen = true
 			s.park("merge.first")
@@ -192,6 +302,13 @@ func (m *merger) Merge(key uint32, values [][]byte) error {
 	return m.f.Add(key, out)
 }
 
+func selfThr() *thr {
+	if s := theSched; s != nil {
+		return s.self()
+	}
+	return nil
+}
+
 var installed bool
 
 func install() {
@@ -204,17 +321,17 @@ func install() {
 	kv.VerifC02SetSeams(
 		func(string) { hook("kv.listDir.after") },
 		func(path string) {
-			if s := theSched; s != nil && s.cur != nil {
-				s.cur.delPath = path
+			if t := selfThr(); t != nil {
+				t.delPath = path
 			}
 			hook("kv.removeDir.before")
 		},
 		func(string) { hook("kv.removeDir.after") })
 	kv.VerifC02WrapCompactJob(func() { hook("compact.beforeRun") })
 	table.VerifC02WrapNewWriter(func(fileName string) {
-		if s := theSched; s != nil && s.cur != nil {
+		if t := selfThr(); t != nil {
 			if n, ok := tableNo(filepath.Base(fileName)); ok {
-				s.cur.out = n
+				t.out = n
 			}
 		}
 		hook("table.newWriter.before")
@@ -452,6 +569,14 @@ func (k *kase) deleteMonitor(n int64) {
 			}
 		}
 	}
+	_, act := version.VerifC02State(k.fv)
+	for _, v := range act {
+		for _, fm := range v.GetAllFiles() {
+			if fm.GetFileNumber().Int64() == n {
+				k.failf("delete-active-version-file", v.ID(), "table %d is being deleted while the active version %d lists it", n, v.ID())
+			}
+		}
+	}
 	for _, p := range kv.VerifC02Pending(k.fam) {
 		if p == n {
 			k.failf("delete-pending-output", -1, "table %d is being deleted while it is a pending output", n)
@@ -545,6 +670,7 @@ func (k *kase) afterPark(t *thr, pc string) {
 				k.contents[t.out] = t.outContent
 			}
 		}
+		k.checkCommitted(cur, fmt.Sprintf("after the version swap of %s (%s)", t.name, t.kind))
 	case "allocd":
 		if t.kind == "flush" { // content is known from the start; readers cannot see it before the swap
 			m := map[uint32][]uint32{}
@@ -561,6 +687,10 @@ func (k *kase) afterPark(t *thr, pc string) {
 		t.relVer = t.ownVer
 	case "done", "closed":
 		t.done, t.alive = true, false
+		if t.kind == "flush" && t.err == nil && t.panicV == nil {
+			// every returned commit is in the current version afterwards
+			k.checkCommitted(cur, fmt.Sprintf("after Commit() of %s returned", t.name))
+		}
 	}
 	if pc == "decd" || pc == "cDecd" || pc == "oDecd" {
 		t.zero = t.relVer != nil && t.relVer.NumOfRef() == 0
@@ -571,6 +701,21 @@ func (k *kase) afterPark(t *thr, pc string) {
 	if t.panicV != nil {
 		k.failf("panic", -1, "thread %s panicked: %v", t.name, t.panicV)
 		t.panicV = nil
+	}
+}
+
+// checkCommitted: the current version shows exactly the tokens of all flush commits whose version
+// swap completed (compactions preserve them).
+func (k *kase) checkCommitted(cur version.Version, when string) {
+	for key := uint32(0); key < numKeys; key++ {
+		have := k.versionTokens(cur, key)
+		want := append([]uint32(nil), k.committed[key]...)
+		sort.Slice(want, func(i, j int) bool { return want[i] < want[j] })
+		if !eqU32(have, want) {
+			k.failf("commit-lost", -1, "%s the current version %d shows key %d = [%s], completed commits wrote [%s]",
+				when, cur.ID(), key, joinU32(have), joinU32(want))
+			return
+		}
 	}
 }
 
@@ -600,7 +745,7 @@ func (k *kase) compactionActive() bool {
 
 // enabled: would `run t` make progress without blocking on the version-set mutex?
 func (k *kase) enabled(t *thr) bool {
-	if t.done {
+	if t.done || t.blocked {
 		return false
 	}
 	if t.kind == "reader" {
@@ -621,6 +766,31 @@ func (k *kase) enabled(t *thr) bool {
 		return t.kind == "flush" || k.lockFree()
 	}
 	return true
+}
+
+// wouldBlock: `run t` would stop at the version-set mutex (held by a thread parked inside a commit).
+func (k *kase) wouldBlock(t *thr) bool {
+	if t.done || t.blocked || t.kind == "reader" || k.lockFree() {
+		return false
+	}
+	switch t.at {
+	case "":
+		return t.kind == "flush" || t.kind == "rollup"
+	case "ready", "picked", "merging":
+		return true
+	case "allocd":
+		return t.kind == "compact"
+	}
+	return false
+}
+
+func (k *kase) anyBlocked() bool {
+	for _, j := range k.jobs {
+		if j.blocked {
+			return true
+		}
+	}
+	return false
 }
 
 func (k *kase) emit(op, res string) {
@@ -741,8 +911,8 @@ func (k *kase) exec(op string) string {
 	case "close":
 		t := k.readers[num(ws[1])]
 		t.closing = true
-		id := k.s.start(t, func() { t.snap.Close() })
-		res = k.parked(t, id)
+		k.s.start(t, func() { t.snap.Close() })
+		op, res = k.settleOp(op, t)
 	case "run":
 		var t *thr
 		n := num(ws[1][1:])
@@ -751,21 +921,20 @@ func (k *kase) exec(op string) string {
 		} else {
 			t = k.jobs[n]
 		}
-		var id string
 		if !t.alive {
 			if t.kind == "compact" {
 				cur, _ := version.VerifC02State(k.fv)
 				t.ownVer = cur
 			}
-			id = k.s.start(t, k.body(t))
+			k.s.start(t, k.body(t))
 		} else {
 			k.beforeResume(t)
 			if k.forced == t {
 				k.forced = nil
 			}
-			id = k.s.resumeT(t)
+			k.s.resumeT(t)
 		}
-		res = k.parked(t, id)
+		op, res = k.settleOp(op, t)
 	case "spawn":
 		t := &thr{name: fmt.Sprintf("j%d", len(k.jobs)), kind: ws[1], parked: make(chan string), resume: make(chan struct{})}
 		switch ws[1] {
@@ -781,6 +950,57 @@ func (k *kase) exec(op string) string {
 		}
 		res = fmt.Sprintf("job=%d", len(k.jobs))
 		k.jobs = append(k.jobs, t)
+	case "par":
+		// the listed jobs (flushes parked before Commit(), rollup-done commits not yet started) run
+		// their commits truly concurrently, un-scheduled, released together
+		var ts []*thr
+		for _, w := range ws[1:] {
+			ts = append(ts, k.jobs[num(w[1:])])
+		}
+		for _, t := range ts {
+			t.free = true
+		}
+		for _, t := range ts {
+			if t.alive {
+				k.s.resumeT(t)
+			} else {
+				k.s.start(t, k.body(t))
+			}
+		}
+		got, ok := k.s.settle(ts)
+		if !ok {
+			k.broken = "concurrent commits did not finish"
+			res = "timeout"
+			break
+		}
+		var parts []string
+		for _, t := range ts {
+			t.free = false
+			if got[t] != "done" {
+				k.broken = "thread " + t.name + " stopped at " + got[t] + " during a concurrent commit"
+			}
+			t.at, t.done, t.alive = "done", true, false
+			parts = append(parts, "done")
+			if t.panicV != nil {
+				k.failf("panic", -1, "thread %s panicked: %v", t.name, t.panicV)
+				t.panicV = nil
+			}
+			if t.kind == "flush" && t.err == nil {
+				k.swaps++
+				for _, p := range t.payload {
+					k.committed[p[0]] = append(k.committed[p[0]], p[1])
+				}
+			}
+		}
+		for _, r := range k.readers {
+			if r.snap != nil && !r.closing {
+				r.sawSwap = true
+			}
+		}
+		cur, _ := version.VerifC02State(k.fv)
+		k.checkCommitted(cur, fmt.Sprintf("after %d concurrent commits returned (%s)", len(ts), strings.Join(ws[1:], ",")))
+		res = "at=" + strings.Join(parts, "+")
+		k.nonTrivial()
 	case "cleanup":
 		res = "ok"
 	}
@@ -788,6 +1008,24 @@ func (k *kase) exec(op string) string {
 	k.emit(op, res)
 	k.branch("op:" + ws[0])
 	return res
+}
+
+// runUntil runs thread name until it is parked at pc (or done / blocked / broken).
+func (k *kase) runUntil(name, pc string) bool {
+	for i := 0; i < 64 && k.broken == ""; i++ {
+		if t := k.thrByName(name); t == nil || t.done || t.blocked {
+			return false
+		}
+		res := k.exec("run " + name)
+		first := strings.SplitN(strings.TrimPrefix(res, "at="), "+", 2)[0]
+		if first == pc {
+			return true
+		}
+		if first == "done" || first == "closed" || first == "blocked" || res == "timeout" {
+			return false
+		}
+	}
+	return false
 }
 
 func errShort(err error) string {
@@ -801,11 +1039,51 @@ func errShort(err error) string {
 	return s
 }
 
-func (k *kase) parked(t *thr, id string) string {
-	if id == "timeout" {
-		k.broken = "thread " + t.name + " blocked (scheduler timeout) at " + t.at
-		return "timeout"
+// settleOp waits for thread t (just started / resumed) and for the threads that were blocked on
+// the version-set mutex; returns the final op text (`run X +jK` when X's step released blocked
+// thread K, which then ran to its own park point) and the result.
+func (k *kase) settleOp(op string, t *thr) (string, string) {
+	busy := []*thr{t}
+	for _, j := range k.jobs {
+		if j.blocked && j != t {
+			busy = append(busy, j)
+		}
 	}
+	got, ok := k.s.settle(busy)
+	if !ok {
+		k.broken = "thread " + t.name + " did not reach a park point (scheduler timeout) at " + t.at
+		return op, "timeout"
+	}
+	res := k.parked(t, got[t])
+	// threads released by this step: those that do not end up holding the mutex first (they allocated
+	// a file number and went on), ordered by the number they got, then the new holder
+	var woken []*thr
+	for _, j := range busy[1:] {
+		if got[j] != "" {
+			woken = append(woken, j)
+		}
+	}
+	sort.Slice(woken, func(a, b int) bool {
+		ha, hb := got[woken[a]] == "familyVersion.appendVersion.enter", got[woken[b]] == "familyVersion.appendVersion.enter"
+		if ha != hb {
+			return hb
+		}
+		return woken[a].out < woken[b].out
+	})
+	for _, j := range woken {
+		op += " +" + j.name
+		res += "+" + strings.TrimPrefix(k.parked(j, got[j]), "at=")
+	}
+	return op, res
+}
+
+func (k *kase) parked(t *thr, id string) string {
+	if id == "" {
+		t.blocked = true
+		k.branch("park:blocked")
+		return "at=blocked"
+	}
+	t.blocked = false
 	pc := k.pcName(t, id)
 	t.at = pc
 	k.afterPark(t, pc)
@@ -853,10 +1131,22 @@ func (k *kase) cleanup() {
 }
 
 // finish drives thread t to its end.
+func (k *kase) thrByName(name string) *thr {
+	n, _ := strconv.Atoi(name[1:])
+	if name[0] == 'r' {
+		return k.readers[n]
+	}
+	return k.jobs[n]
+}
+
 func (k *kase) finish(name string) {
 	for i := 0; i < 64 && k.broken == ""; i++ {
+		if t := k.thrByName(name); t == nil || t.done || t.blocked {
+			return
+		}
 		res := k.exec("run " + name)
-		if res == "at=done" || res == "at=closed" || res == "timeout" {
+		first := strings.SplitN(res, "+", 2)[0]
+		if first == "at=done" || first == "at=closed" || first == "at=blocked" || res == "timeout" {
 			return
 		}
 	}
@@ -894,6 +1184,7 @@ func (k *kase) begin(i int, threshold int, rollupOn bool) error {
 	if err := k.open(threshold, rollupOn); err != nil {
 		return err
 	}
+	k.s.locked = func() bool { return kv.VerifC02CommitLocked(k.store) }
 	cur, _ := version.VerifC02State(k.fv)
 	ro := 0
 	if rollupOn {
@@ -935,6 +1226,136 @@ func (k *kase) witness(variant int) {
 	}
 	k.exec("close 1")
 	k.finish("r1")
+}
+
+// ---------------------------------------------------------------- directed cases
+
+var doParks = []string{"doListed", "doPended", "doActived", "doRolled"}
+var writerStages = []string{"allocd", "ready", "cSnapped", "cSwapped"}
+
+const (
+	nWitness  = 2
+	nDirectDO = 32 // 4 park points of deleteObsoleteFiles × {flush, compact} × 4 writer stages
+	nDirectCC = 16 // overlapping committers (12 scheduled through the mutex, 4 released together)
+	nDirected = nWitness + nDirectDO + nDirectCC
+)
+
+func (k *kase) lastJob() string { return k.jobs[len(k.jobs)-1].name }
+
+func (k *kase) setupFlushes(rng *rand.Rand, n int) {
+	for ; n > 0 && k.broken == ""; n-- {
+		k.exec("spawn flush " + k.newPayload(rng))
+		k.finish(k.lastJob())
+	}
+}
+
+// directDO: a commit (flush or compaction) lands entirely while deleteObsoleteFiles is parked at
+// one of its yield points (after the listing / pending scan / active-version scan / rollup scan);
+// the writer is at a given stage when deleteObsoleteFiles starts.
+func (k *kase) directDO(rng *rand.Rand, d int) {
+	park := doParks[d%4]
+	compact := (d/4)%2 == 1
+	stage := writerStages[(d/8)%4]
+	k.setupFlushes(rng, 2)
+	var w string
+	if compact {
+		k.exec("spawn compact")
+	} else {
+		k.exec("spawn flush " + k.newPayload(rng))
+	}
+	w = k.lastJob()
+	if compact && stage == "ready" {
+		stage = "merging"
+	}
+	k.runUntil(w, stage)
+	k.exec("spawn delobs")
+	do := k.lastJob()
+	k.runUntil(do, park)
+	k.finish(w) // commit + removePendingOutput (+ the compaction's own cleanup) while the scan is parked
+	k.finish(do)
+	k.drain(rng)
+}
+
+// directCC: two committers overlap: the second calls Commit()/commitEditLog while the first is
+// parked inside CommitFamilyEditLog (holding the version-set mutex); it blocks on the mutex and
+// goes on when the first releases it. Both returned commits must be in the current version.
+func (k *kase) directCC(rng *rand.Rand, d int) {
+	kinds := [][2]string{{"flush", "flush"}, {"flush", "compact"}, {"compact", "flush"}, {"flush", "rollup"}, {"rollup", "flush"}, {"compact", "rollup"}}
+	if d >= 12 {
+		k.directPar(rng, d-12)
+		return
+	}
+	pair := kinds[d%6]
+	holdAt := []string{"cSnapped", "cSwapped"}[(d/6)%2]
+	k.setupFlushes(rng, 2)
+	spawn := func(kind string) string {
+		switch kind {
+		case "flush":
+			k.exec("spawn flush " + k.newPayload(rng))
+		case "compact":
+			k.exec("spawn compact")
+		case "rollup":
+			cur, _ := version.VerifC02State(k.fv)
+			op := "spawn rollup"
+			var fs []int
+			for f := range cur.GetRollupFiles() {
+				fs = append(fs, int(f.Int64()))
+			}
+			sort.Ints(fs)
+			for _, f := range fs {
+				op += " " + strconv.Itoa(f)
+			}
+			k.exec(op)
+		}
+		return k.lastJob()
+	}
+	preLock := func(name, kind string) {
+		switch kind {
+		case "flush":
+			k.runUntil(name, "ready")
+		case "compact":
+			k.runUntil(name, "allocd")
+		}
+	}
+	t1 := spawn(pair[0])
+	t2 := spawn(pair[1])
+	preLock(t1, pair[0])
+	preLock(t2, pair[1])
+	k.runUntil(t1, holdAt) // t1 inside CommitFamilyEditLog
+	k.exec("run " + t2)    // blocks on vs.mutex
+	k.finish(t1)           // releases the mutex on its way: t2 goes on
+	k.finish(t2)
+	k.finish(t1)
+	k.drain(rng)
+}
+
+// directPar: several rounds of 2–3 commits (flushes, optionally a rollup-done commit) whose
+// Commit() calls are released together and run without the scheduler.
+func (k *kase) directPar(rng *rand.Rand, d int) {
+	k.setupFlushes(rng, 1)
+	for round := 0; round < 4 && k.broken == ""; round++ {
+		n := 2 + (d+round)%2
+		op := "par"
+		for i := 0; i < n; i++ {
+			k.exec("spawn flush " + k.newPayload(rng))
+			k.runUntil(k.lastJob(), "ready")
+			op += " " + k.lastJob()
+		}
+		if d%2 == 1 {
+			cur, _ := version.VerifC02State(k.fv)
+			var fs []int
+			for f := range cur.GetRollupFiles() {
+				fs = append(fs, int(f.Int64()))
+			}
+			sort.Ints(fs)
+			if len(fs) > 0 {
+				k.exec("spawn rollup " + strconv.Itoa(fs[0]))
+				op += " " + k.lastJob()
+			}
+		}
+		k.exec(op)
+	}
+	k.drain(rng)
 }
 
 func (k *kase) newPayload(rng *rand.Rand) string {
@@ -1004,6 +1425,31 @@ func (k *kase) random(rng *rand.Rand, steps int) {
 		run := runnable()
 		or := openReaders()
 		x := rng.Intn(100)
+		// now and then let a thread run into the version-set mutex held by a parked committer
+		if !k.anyBlocked() && rng.Intn(6) == 0 {
+			var wb []string
+			for _, t := range k.jobs {
+				if k.wouldBlock(t) && !(t.kind == "compact" && t.at == "" && k.compactionActive()) {
+					wb = append(wb, t.name)
+				}
+			}
+			if len(wb) > 0 {
+				k.exec("run " + wb[rng.Intn(len(wb))])
+				continue
+			}
+		}
+		if !k.anyBlocked() && k.lockFree() && rng.Intn(8) == 0 {
+			var ready []string
+			for _, t := range k.jobs {
+				if t.kind == "flush" && t.at == "ready" && !t.done {
+					ready = append(ready, t.name)
+				}
+			}
+			if len(ready) >= 2 {
+				k.exec("par " + strings.Join(ready, " "))
+				continue
+			}
+		}
 		switch {
 		case x < 45 && len(run) > 0:
 			k.exec("run " + run[rng.Intn(len(run))])
@@ -1104,6 +1550,17 @@ func (k *kase) drain(rng *rand.Rand) {
 	if k.broken != "" {
 		return
 	}
+	// a reader that starts after everything completed sees every commit
+	k.exec(fmt.Sprintf("acquire %d", k.nReaders))
+	for key := 0; key < numKeys; key++ {
+		k.exec(fmt.Sprintf("load %d %d", k.nReaders, key))
+	}
+	k.exec(fmt.Sprintf("close %d", k.nReaders))
+	k.finish(fmt.Sprintf("r%d", k.nReaders))
+	k.nReaders++
+	if k.broken != "" {
+		return
+	}
 	k.exec("spawn delobs")
 	k.finish(k.jobs[len(k.jobs)-1].name)
 	k.cleanup()
@@ -1139,7 +1596,7 @@ func (k *kase) drain(rng *rand.Rand) {
 
 func (area) Run(c *core.Ctx) error {
 	install()
-	s := &sched{}
+	s := newSched()
 	theSched = s
 	defer func() { theSched = nil }()
 	// Does the Release race exist in this tree? An unrecorded run of the witness decides whether
@@ -1160,18 +1617,32 @@ func (area) Run(c *core.Ctx) error {
 		k := &kase{c: c, s: s}
 		c.Begin(i)
 		threshold, rollupOn := 2, false
-		if i >= 2 {
+		if i >= nDirected {
 			threshold = 1 + rng.Intn(3)
 			rollupOn = rng.Intn(3) == 0
+		} else if i >= nWitness+nDirectDO {
+			rollupOn = true
+		} else if i >= nWitness {
+			rollupOn = i%2 == 0
 		}
 		if err := k.begin(i, threshold, rollupOn); err != nil {
 			k.close()
 			return err
 		}
-		if i < 2 {
+		if i < nWitness {
 			k.witness(i)
 			c.NonTrivial()
 			c.Branch(fmt.Sprintf("witness:stale-removeVersion=%v", len(k.tainted) > 0))
+		} else if i < nWitness+nDirectDO {
+			k.racy = racy
+			k.directDO(rng, i-nWitness)
+			c.NonTrivial()
+			c.Branch("directed:commit-inside-deleteObsoleteFiles")
+		} else if i < nDirected {
+			k.racy = racy
+			k.directCC(rng, i-nWitness-nDirectDO)
+			c.NonTrivial()
+			c.Branch("directed:overlapping-committers")
 		} else {
 			k.racy = racy
 			steps := 50 + rng.Intn(70)
